@@ -49,7 +49,16 @@ Tags(r) ==
               THEN {"diagonal-segment"} ELSE {})
         \cup (IF hits = {} THEN {}
               ELSE IF \A h \in hits : Cardinality({j \in 1..Len(r.polys[h[2]]) : OnSeg(rt[h[1]], rt[h[1] + 1], r.polys[h[2]][j])}) >= 2
-                   THEN {"through-shape:via-two-of-its-vertices"} ELSE {"through-shape"})
+                   THEN {"through-shape:via-two-of-its-vertices"}
+              \* touching shapes: the segment runs through the shape, but wherever it crosses the shape's boundary it does so
+              \* at a vertex of some shape of the scene (its own or a neighbour butted against it), never at a clean point
+              ELSE IF \A h \in hits : LET P == r.polys[h[2]]  a == rt[h[1]]  b == rt[h[1] + 1]
+                                           allV == UNION {{r.polys[i][j] : j \in 1..Len(r.polys[i])} : i \in DOMAIN r.polys}
+                                           PC(p1, p2, q1, q2) == LET d1 == Cross(Sub(p2, p1), Sub(q1, p1))  d2 == Cross(Sub(p2, p1), Sub(q2, p1))
+                                                                     d3 == Cross(Sub(q2, q1), Sub(p1, q1))  d4 == Cross(Sub(q2, q1), Sub(p2, q1))
+                                                                 IN  ((d1 > 0 /\ d2 < 0) \/ (d1 < 0 /\ d2 > 0)) /\ ((d3 > 0 /\ d4 < 0) \/ (d3 < 0 /\ d4 > 0))
+                                       IN  \A j \in 1..Len(P) : PC(a, b, P[Prev(P, j)], P[j]) => \E v \in allV : OnSeg(a, b, v) /\ OnSeg(P[Prev(P, j)], P[j], v)
+                   THEN {"through-shape:crossing-only-at-shape-vertices"} ELSE {"through-shape"})
 NonTrivial(r) == ~r.thrown /\ Len(r.disp) > 2
 VARIABLES k, phase, bad
 vars == <<k, phase, bad>>
